@@ -106,7 +106,7 @@ func runC16(c *Ctx) {
 	}()
 	c.rep.Rule = "sequences of 8-40 calls (CreateFile/Write/Close/Abort/TombstoneFile/Update/OpenFile/handle reads) by up to 4 writers open at once, " +
 		"name draws forced through a cyclic stream over 3 names, payloads: arbitrary bytes incl. empty, and valid bloom files written in 1-3 chunks; " +
-		"real os failures injected at reservation/temp create and directory fsync (EMFILE), Sync (handle closed early), rename/remove (immutable directory, when the platform allows); " +
+		"real os failures injected at reservation/temp create and the open of the directory fsync (EMFILE), the directory's fsync(2) itself (EIO through a per-thread seccomp filter, when the platform allows), Sync (handle closed early), rename/remove (immutable directory, when the platform allows); " +
 		"about a third of the TombstoneFile calls hit a pointer whose writer is still open; the root directory's own path contains .dat/.tmp in about half of the sequences. " +
 		"After every call: hook-event log = model plan, listing+bytes, scan pointers, reads, spec predicate, no artifact of a tombstoned pointer left, no path outside the root touched. " +
 		"Non-trivial: a sequence with at least one successful Close and one removal or collision. Distinct by call text."
@@ -128,6 +128,9 @@ func runC16(c *Ctx) {
 	c16Exhaust(c, sh, filepath.Join(scratch, "exhaust"), fixed)
 	if !immutableProbe.ok {
 		c.rep.Notes = append(c.rep.Notes, "immutable-directory faults (rename/remove failures) not available on this platform; those branches were exercised in the model only")
+	}
+	if !fsyncFailProbe.ok {
+		c.rep.Notes = append(c.rep.Notes, "a failing fsync(2) (seccomp filter) cannot be injected on this platform; the directory fsync was only failed through the open of the directory")
 	}
 }
 
@@ -385,9 +388,16 @@ func c16Sequence(c *Ctx, sh *shard, dir string, seq int, fixed bool, pool [][]by
 			if r.immOK {
 				choices = append(choices, 2)
 			}
+			if r.fsyncOK {
+				choices = append(choices, 4)
+			}
 			f := fault(choices...)
 			wasDone := fw.done
 			res := r.closeWriter(fw, f)
+			if f >= 0 {
+				c.dist("c16_fault", fmt.Sprintf("close@%d", f))
+			}
+			f = res.faultIdx // the model's numbering (one failure point for the directory fsync)
 			if res.err == nil {
 				spec[fw.base] = append([]byte(nil), fw.written...)
 				nontrivial.closed = true
@@ -400,9 +410,6 @@ func c16Sequence(c *Ctx, sh *shard, dir string, seq int, fixed bool, pool [][]by
 				window[fw.base] = append([]byte(nil), fw.written...)
 			}
 			c.dist("c16_op", "Close")
-			if f >= 0 {
-				c.dist("c16_fault", fmt.Sprintf("close@%d", f))
-			}
 			// the model derives the failing call from its own state when the handle is already closed
 			observe(fmt.Sprintf("FClose %d %s", fw.id, coqOptNat(f)), &c16Step{Op: "Close", Writer: fw.id, Base: fw.base, Fault: f}, res, nil, nil, nil, false)
 		case x < 0.74 && len(r.writers) > 0:
@@ -534,6 +541,9 @@ func c16Sequence(c *Ctx, sh *shard, dir string, seq int, fixed bool, pool [][]by
 	c.count([]string{"C16"}, term, nontrivial.closed && (nontrivial.removed || nontrivial.collided), map[string]any{"seq": seq, "draws": draws, "calls": len(log), "bloom_stream": bloomStream})
 	c.dist("c16_stream", map[bool]string{true: "bloom", false: "bytes"}[bloomStream])
 	c.dist("c16_caller", map[bool]string{true: "tombstones-open-pointers,no-faults", false: "well-behaved,faults"}[unguarded])
+	for _, m := range r.misreported {
+		c.mismatch("c16-os-result", fmt.Sprintf("sequence %d: %s", seq, m), desc)
+	}
 	if goViolation != "" {
 		sig := "c16-spec"
 		if d8case {
